@@ -103,15 +103,25 @@ def pyKey : ColorArg → ColorArg
 
 /-! ### `_color_to_webcolor` -/
 
-/-- `_color_is_black` -/
+/-- `_is_opaque_alpha(alpha)` of an `int` alpha value: `alpha in (255, 1)` -/
+def opaqueIntAlpha (a : Nat) : Bool := a == 255 || a == 1
+
+/-- `_color_is_black` (since fix 5f5dbe9: a 4-tuple counts only if its alpha value is opaque BY TYPE — the float 1.0, the ints 255
+    and 1 —, then the first three values are compared; `(0, 0, 0, 255.0)` is no longer black) -/
 def isBlack : ColorArg → Bool
   | .str s => let l := lowerAscii s; l == "#000" || l == "#000000" || l == "black"
-  | c => let k := pyKey c; k == .ints [0, 0, 0] || k == .ints [0, 0, 0, 255] || k == .ints [0, 0, 0, 1]
+  | .ints [r, g, b] => r == 0 && g == 0 && b == 0
+  | .ints [r, g, b, a] => opaqueIntAlpha a && r == 0 && g == 0 && b == 0
+  | .floatAlpha r g b k => k == 1000 && r == 0 && g == 0 && b == 0
+  | _ => false
 
 /-- `_color_is_white` -/
 def isWhite : ColorArg → Bool
   | .str s => let l := lowerAscii s; l == "#fff" || l == "#ffffff" || l == "white"
-  | c => let k := pyKey c; k == .ints [255, 255, 255] || k == .ints [255, 255, 255, 255] || k == .ints [255, 255, 255, 1]
+  | .ints [r, g, b] => r == 255 && g == 255 && b == 255
+  | .ints [r, g, b, a] => opaqueIntAlpha a && r == 255 && g == 255 && b == 255
+  | .floatAlpha r g b k => k == 1000 && r == 255 && g == 255 && b == 255
+  | _ => false
 
 def digit (n : Nat) : Char := Char.ofNat (48 + n % 10)
 
